@@ -49,8 +49,8 @@ CLAIMED = {
  'C11': dict(
     text='Slice: the JSON string writer (generic_append, used for every key and string value): opening quote, every input byte represented exactly once and in order (verbatim only if it is not a quotation mark, '
          'reverse solidus or control character, otherwise by exactly its escape), closing quote. The string-token parser parse_string: terminates on every input without reading past the stream, and an accepted string '
-         'contains no raw control character, only the RFC 8259 escapes, surrogate escapes only as first/second pairs, and passed UTF-8 validation.',
-    note=TRUST + 'Not covered: tokenizer dispatch, nesting bound, unique keys, number parsing/printing (iostream), tree construction, typed extraction, locale. The stream buffer, str, read_4_digits and utf8::validate are stubs.',
+         'contains no raw control character, only the RFC 8259 escapes, surrogate escapes only as first/second pairs, and passed UTF-8 validation. The tokenizer is under contract too: next() yields a structural character only for that very byte, true/false/null only when spelled in full, a string or number token only through parse_string/parse_number started at the deciding byte, otherwise an error or the end of input; check() consumes exactly the literal; read_4_digits accepts exactly four hexadecimal digits and returns their value.',
+    note=TRUST + 'Not covered: nesting bound, unique keys, number parsing/printing (iostream), tree construction, typed extraction, locale. The stream buffer, str, read_4_digits and utf8::validate are stubs.',
     design='4 (C11)', technique='cbmc code contracts (dfcc) + loop contracts; Appender/stream stubs asserting what each append may contain'),
  'C12': dict(
     text='Slice: multipart_parser::consume (all states) is memory safe for every chunk, keeps a well-formed (state, position) pair across chunks, reports a refusing file sink as no_room_left and never writes after it, '
